@@ -112,9 +112,20 @@ struct Run{
     for(int q=0;q<5;q++) switch(pm[q]){ case 0: s->Set_CoherentRhoTerms(c.sw.coh); break; case 1: s->Set_NonCoherentRhoTerms(c.sw.noncoh); break; case 2: s->Set_OtherRhoTerms(c.sw.other); break;
                                         case 3: s->Set_GammaScalarTerms(c.sw.gs); break; default: s->Set_OtherScalarTerms(c.sw.os); }
   }
-  void apply_stepper(SimSolver* s){
+  // what is in effect in the live solver (settings persist over Evolve, ini() and moves); unless the plan asks for every setter, only the setters
+  // whose value changes are called, one at a time, as a user would: each alone must take effect in the next Evolve
+  StepCfg applied; bool have_applied=false; bool apply_all=true;
+  void apply_stepper(SimSolver* s,bool track=true){
     const gsl_odeiv2_step_type* t=sc.is_sim()?sim_stepper(sc.tableau,sc.bufmode,sc.dydt_in):wrapped_stepper(sc.name);
-    s->Set_GSL_step(t); s->Set_AdaptiveStep(sc.adaptive); s->Set_abs_error(sc.abs); s->Set_rel_error(sc.rel); s->Set_h(sc.h); s->Set_NumSteps(sc.nsteps);
+    bool all=!track||!have_applied||apply_all;
+    int ncalled=0;
+    if(all||applied.name!=sc.name||applied.tableau!=sc.tableau||applied.bufmode!=sc.bufmode||applied.dydt_in!=sc.dydt_in){ s->Set_GSL_step(t); ncalled++; }
+    if(all||applied.adaptive!=sc.adaptive){ s->Set_AdaptiveStep(sc.adaptive); ncalled++; }
+    if(all||applied.abs!=sc.abs){ s->Set_abs_error(sc.abs); ncalled++; }
+    if(all||applied.rel!=sc.rel){ s->Set_rel_error(sc.rel); ncalled++; }
+    if(all||applied.h!=sc.h){ s->Set_h(sc.h); ncalled++; }
+    if(all||applied.nsteps!=sc.nsteps){ s->Set_NumSteps(sc.nsteps); ncalled++; }
+    if(track){ applied=sc; have_applied=true; if(!all && ncalled==1) c.ctr->add("probe_single_setter_between_evolves"); }
   }
   void read_stepper(const Json& o){
     sc.name=o["name"].as_str("rkf45");
@@ -353,7 +364,7 @@ struct Run{
           nw->ini(nx,nsun,nrhos,nsc,t_ini); if(nx>=2) nw->Set_xrange(1.0,2.0,"linear");
           for(unsigned ix=0;ix<nx;ix++){ for(unsigned ir=0;ir<nrhos;ir++){ double* q=nw->rho_ptr(ix,ir); for(unsigned k=0;k<nsun*nsun;k++) q[k]=0.25; } for(unsigned is=0;is<nsc;is++) nw->scal_ptr(ix)[is]=0.5; }
           apply_switches(nw,0);
-          { StepCfg ksc=sc; sc.name="rkf45"; sc.adaptive=true; sc.abs=sc.rel=1e-6; sc.h=1e-3; sc.reject=0; sc.fail=0; apply_stepper(nw); sc=ksc; }   // a benign stepper for the destination's own history
+          { StepCfg ksc=sc; sc.name="rkf45"; sc.adaptive=true; sc.abs=sc.rel=1e-6; sc.h=1e-3; sc.reject=0; sc.fail=0; apply_stepper(nw,false); sc=ksc; }   // a benign stepper for the destination's own history
           SimSolver* keep=c.live; c.live=nw; nw->Evolve(0.05); c.live=keep;
         }
         else if(!fresh){ nw->ini(1+(unsigned)(o["n"].as_int(1)%3),2+(unsigned)(o["d"].as_int(0)%5),1,(unsigned)(o["s"].as_int(0)%2),-2.0); }
@@ -436,6 +447,22 @@ struct Run{
     }
     // x forms need at least two nodes
     if(nx<2){ cleanup(); return; }
+    if(kind=="node_vs_x_avg"){
+      // the interpolating averaging forms agree with the node-indexed averaging form at every node, whatever the scale averages away
+      unsigned ix=(unsigned)(o["ix"].as_int(0)%nx); double xn=grid[ix];
+      Mat rho=from_components(nsun,live->rho_ptr(ix,ir)); double mp; (void)dense_expect(rho,O,xn,ir,tau,&mp);
+      static const double fr[]={0.3,0.7,1.5,1e6}; double scale=(mp>0?mp:1.0)*fr[(size_t)(o["edge"].as_int(0)&3)];
+      std::vector<bool> a1(nsun*(nsun-1)/2+1),a2(a1.size()),a3(a1.size()); double v1=0,v2=0,v3=0;
+      rc=lib_call([&]{ v1=live->GetExpectationValue(op,ir,ix,scale,a1); v2=live->GetExpectationValueD(op,ir,xn,scale,a2);
+                       squids::SQuIDS::expectationValueDBuffer buf(nsun); v3=live->GetExpectationValueD(op,ir,xn,buf,scale,a3); });
+      cleanup();
+      if(rc!=CALL_OK){ c.violation("C05","expect:threw",kind,"an averaging query at a node threw \""+g_what+"\""); return; }
+      double tol=1e-12*(1+mp)*nsun*nsun*(rho.maxabs()*O.maxabs()+1e-300);
+      if(!(std::fabs(v1-v2)<=tol)||!(std::fabs(v1-v3)<=tol)){ char b[260]; snprintf(b,sizeof b,"at node %u (x=%.6g) with averaging scale %.6g: node-indexed form %.15g, interpolating forms %.15g and %.15g (tolerance %.3g)",ix,xn,scale,v1,v2,v3,tol); c.violation("C05","expect:node-disagreement",kind,b); return; }
+      if(a1!=a2||a1!=a3){ c.violation("C05","expect:node-disagreement",std::string(kind)+":flags","the averaged-out flags reported by the interpolating forms at a node differ from the node-indexed form's"); return; }
+      c.ctr->add("expect_node_vs_x_averaging_checked");
+      return;
+    }
     double x=o["x"].as_num(0.5);           // position relative to the grid: 0..1 inside, <0 below, >1 above
     double xa=grid.front(),xb=grid.back();
     double xi=xa+x*(xb-xa);
@@ -508,13 +535,18 @@ struct Run{
     Rng r((uint64_t)o["vs"].as_int(5)+d2);
     std::vector<double> oc(d2*d2),s0(d2*d2),s1(d2*d2); for(unsigned k=0;k<d2*d2;k++){ oc[k]=r.uniform(-1,1); s0[k]=r.uniform(-1,1); s1[k]=r.uniform(-1,1); }
     double wv[6]; for(int k=0;k<6;k++) wv[k]=r.uniform(-2,2);
-    double xq=1.0+r.uniform(0,1),tau=0.7; bool avg=o["avg"].as_bool(false);
+    double xq=1.0+r.uniform(0,1),tau=0.7,t0=0.0; bool avg=o["avg"].as_bool(false);
+    // mirrored: the two solvers are asked at the same x, matrix index and time, one right after the other
+    bool mirror=(d2==nsun && nx>=2 && o["mirror"].as_bool(false) && grid.front()<1.95 && grid.back()>std::max(grid.front(),1.0));
+    if(mirror){ double lo=std::max(grid.front(),1.0),hi=std::min(grid.back(),2.0); xq=lo+(hi-lo)*r.uniform(0.05,0.95); tau=0.0; t0=live->Get_t(); c.ctr->add("probe_second_solver_mirrors_first"); }
     double got=0;
     int rc=lib_call([&]{
       Mini s2; for(int k=0;k<6;k++) s2.w[k]=wv[k];
-      s2.ini(2,d2,1,0,0.0); s2.Set_xrange(1.0,2.0,"linear");
+      s2.ini(2,d2,1,0,t0); s2.Set_xrange(1.0,2.0,"linear");
       for(unsigned k=0;k<d2*d2;k++){ s2.rp(0)[k]=s0[k]; s2.rp(1)[k]=s1[k]; }
       s2.Evolve(tau);      // no numerics: only the clock advances
+      if(mirror){ squids::SU_vector opm(oc); std::vector<bool> avr(d2*(d2-1)/2+1); SimSolver* keep=c.live;
+        double junk=avg?live->GetExpectationValueD(opm,0,xq,1e9,avr):live->GetExpectationValueD(opm,0,xq); (void)junk; (void)keep; }
       squids::SU_vector opv(oc);
       if(avg){ std::vector<bool> avr(d2*(d2-1)/2+1); got=s2.GetExpectationValueD(opv,0,xq,1e9,avr); }
       else got=s2.GetExpectationValueD(opv,0,xq);
@@ -597,7 +629,16 @@ struct Run{
     else if(op=="limits") op_limits(o);
     else if(op=="any_numerics") op_any_numerics(o);
     else if(op=="switch") op_switch(o);
-    else if(op=="stepper"){ read_stepper(o); plan_sc=sc; have_plan_sc=true; need_apply=true; shp("stepper:"+sc.name); }
+    else if(op=="stepper"){ read_stepper(o); plan_sc=sc; have_plan_sc=true; need_apply=true; apply_all=o["all"].as_bool(true); shp("stepper:"+sc.name); }
+    else if(op=="tweak"){
+      // one setting changed on its own between two Evolve calls
+      if(!have_plan_sc){ plan_sc=sc; have_plan_sc=true; }
+      std::string w=o["which"].as_str("abs"); double v=o["value"].as_num(1e-10);
+      if(w=="abs"&&v>0) plan_sc.abs=v; else if(w=="rel"&&v>0) plan_sc.rel=v; else if(w=="h"&&v>0) plan_sc.h=v;
+      else if(w=="nsteps") plan_sc.nsteps=(unsigned)std::max(1LL,std::min(20000LL,(long long)plan_sc.nsteps*2));
+      else if(w=="adaptive"&&plan_sc.name!="msadams"){ plan_sc.adaptive=!plan_sc.adaptive; if(!plan_sc.adaptive){ plan_sc.reject=0; plan_sc.fail=0; } }
+      need_apply=true; apply_all=false; shp("tweak:"+w);
+    }
     else if(op=="move_ctor") op_move(o,false);
     else if(op=="move_assign") op_move(o,true);
     else if(op=="reini") op_reini(o);
@@ -637,12 +678,31 @@ struct SolverEngine: Engine{
     o["nsteps"]=(int)ns;
     o["tableau"]=(int)r.below(6); o["bufmode"]=(int)r.below(4); o["dydt_in"]=r.chance(0.5);
     o["reject"]=adaptive&&r.chance(0.35)?r.range(1,4):0; o["fail"]=adaptive&&r.chance(0.25)?r.range(1,3):0;
+    o["all"]=r.chance(0.5);
+    return o;
+  }
+  // a tolerance tightened on its own between two Evolve calls: the first segment runs loose in one of the two tolerances (its closed-form
+  // comparison is skipped), the second must obey the new value
+  static void gen_stale_tolerance(Rng& r,Json& ops,double L){
+    static const char* names[]={"rk4","rkf45","rkck","rk8pd","msadams"};
+    bool abs_first=r.chance(0.5);
+    Json st=Json::object(); st["op"]="stepper"; st["name"]=names[r.below(5)]; st["adaptive"]=true; st["abs"]=abs_first?1e-2:1e-11; st["rel"]=abs_first?1e-11:1e-2;
+    st["h"]=r.chance(0.5)?1e-3:1e-1; st["nsteps"]=100; st["tableau"]=0; st["bufmode"]=0; st["dydt_in"]=true; st["reject"]=0; st["fail"]=0; st["all"]=r.chance(0.5);
+    ops.push(st);
+    { Json o=Json::object(); o["op"]="evolve"; o["dt"]=r.uniform(0.1,0.6); ops.push(o); }
+    { Json o=Json::object(); o["op"]="tweak"; o["which"]=abs_first?"abs":"rel"; o["value"]=1e-10; ops.push(o); }
+    { Json o=Json::object(); o["op"]="evolve"; o["dt"]=r.uniform(0.2,0.8); ops.push(o); }
+    (void)L;
+  }
+  static Json gen_tweak(Rng& r){
+    Json o=Json::object(); o["op"]="tweak"; static const char* w[]={"abs","rel","h","nsteps","adaptive"}; int k=(int)r.weighted({25,25,20,20,10}); o["which"]=w[k];
+    o["value"]=(k<2)?(r.chance(0.5)?1e-10:1e-8):(r.chance(0.5)?1e-4:1e-2);
     return o;
   }
   static Json gen_expect(Rng& r,bool allow_outside){
     Json o=Json::object(); o["op"]="expect";
-    static const char* kinds[]={"node","node_avg","x","x_buf","x_avg","x_buf_avg","state"};
-    o["kind"]=kinds[r.weighted({20,8,22,14,10,8,18})];
+    static const char* kinds[]={"node","node_avg","x","x_buf","x_avg","x_buf_avg","state","node_vs_x_avg"};
+    o["kind"]=kinds[r.weighted({20,8,22,14,10,8,18,8})];
     o["irho"]=(int)r.below(3); o["ix"]=(int)r.below(9); o["vs"]=(long long)r.below(1000000);
     double x=r.uniform(0,1);
     if(allow_outside && r.chance(0.25)) x=r.chance(0.5)?-r.uniform(0.01,1.5):1+r.uniform(0.01,1.5);
@@ -670,7 +730,8 @@ struct SolverEngine: Engine{
     auto dtgen=[&]{ return r.chance(0.1)?0.0:(r.chance(0.7)?r.uniform(0.05,0.8):r.uniform(0.8,1.6)); };
     if(prop=="C04"){
       int nev=r.range(1,3);
-      for(int i=0;i<nev;i++){ double dt=dtgen(); if(i==0||r.chance(0.4)) ops.push(gen_stepper(r,dt,L)); evolve(dt); if(r.chance(0.25)) ops.push(gen_expect(r,false)); }
+      for(int i=0;i<nev;i++){ double dt=dtgen(); if(i==0||r.chance(0.4)) ops.push(gen_stepper(r,dt,L)); else if(r.chance(0.3)) ops.push(gen_tweak(r)); evolve(dt); if(r.chance(0.25)) ops.push(gen_expect(r,false)); }
+      if(r.chance(0.12)) gen_stale_tolerance(r,ops,L);
     }else if(prop=="C05"){
       int n=r.range(2,10);
       for(int i=0;i<n;i++){
@@ -678,7 +739,7 @@ struct SolverEngine: Engine{
         if(k==0){ double dt=dtgen()*(r.chance(0.2)?50:1); if(mask) dt=std::min(dt,1.0); ops.push(gen_stepper(r,dt,L)); evolve(dt); }
         else if(k==1) ops.push(gen_expect(r,true));
         else if(k==2){ Json o=Json::object(); o["op"]="reini"; o["cfg"]=gen_cfg(r,true); o["same"]=r.chance(0.4); ops.push(o); }
-        else if(k==3){ Json o=Json::object(); o["op"]="second_solver"; o["same_dim"]=r.chance(0.35); o["d"]=(int)r.below(5); o["avg"]=r.chance(0.3); o["vs"]=(long long)r.below(100000); ops.push(o); }
+        else if(k==3){ Json o=Json::object(); o["op"]="second_solver"; o["same_dim"]=r.chance(0.35); o["mirror"]=r.chance(0.6); o["d"]=(int)r.below(5); o["avg"]=r.chance(0.3); o["vs"]=(long long)r.below(100000); ops.push(o); }
         else{ Json o=Json::object(); o["op"]=r.chance(0.5)?"move_ctor":"move_assign"; o["fresh"]=r.chance(0.5); o["evolve_target"]=r.chance(0.3); o["reini_old"]=r.chance(0.3); o["reini_same"]=r.chance(0.5); o["n"]=(int)r.below(3); o["d"]=(int)r.below(5); o["s"]=(int)r.below(2); ops.push(o); }
       }
     }else{ // C10 and C15: sequences
@@ -689,13 +750,15 @@ struct SolverEngine: Engine{
         if(prop=="C15"&&r.chance(0.12)) k=9;
         if(r.chance(0.08)) k=10;
         if(r.chance(0.06)) k=11;
+        if(r.chance(0.05)){ gen_stale_tolerance(r,ops,L); continue; }
+        if(r.chance(0.06)){ ops.push(gen_tweak(r)); evolve(dtgen()); continue; }
         if(k==0){ double dt=dtgen(); if(i==0||r.chance(0.35)) ops.push(gen_stepper(r,dt,L)); evolve(dt); }
         else if(k==1){ Json o=Json::object(); o["op"]="switch"; o["which"]=(int)r.below(5); o["on"]=r.chance(0.5); ops.push(o); }
         else if(k==2){ ops.push(gen_stepper(r,1.0,L)); }
         else if(k==3||k==4){ Json o=Json::object(); o["op"]=k==3?"move_ctor":"move_assign"; o["fresh"]=r.chance(0.5); o["evolve_target"]=r.chance(0.35); o["reini_old"]=r.chance(0.4); o["reini_same"]=r.chance(0.5); o["n"]=(int)r.below(3); o["d"]=(int)r.below(5); o["s"]=(int)r.below(2); ops.push(o); }
         else if(k==5){ Json o=Json::object(); o["op"]="reini"; o["cfg"]=gen_cfg(r,false); o["same"]=r.chance(0.4); ops.push(o); }
         else if(k==6) ops.push(gen_expect(r,prop=="C15"));
-        else if(k==7){ Json o=Json::object(); o["op"]="second_solver"; o["same_dim"]=r.chance(0.35); o["d"]=(int)r.below(5); o["avg"]=r.chance(0.3); o["vs"]=(long long)r.below(100000); ops.push(o); }
+        else if(k==7){ Json o=Json::object(); o["op"]="second_solver"; o["same_dim"]=r.chance(0.35); o["mirror"]=r.chance(0.6); o["d"]=(int)r.below(5); o["avg"]=r.chance(0.3); o["vs"]=(long long)r.below(100000); ops.push(o); }
         else if(k==10){ Json o=Json::object(); o["op"]="limits"; o["hmin"]=(int)r.below(4); o["hmax"]=(int)r.below(3); ops.push(o); if(r.chance(0.6)){ evolve(r.chance(0.5)?r.uniform(1e-5,5e-3):dtgen()); } }
         else if(k==11){ Json o=Json::object(); o["op"]="any_numerics"; o["on"]=r.chance(0.4); ops.push(o); evolve(dtgen()); }
         else if(k==9){ Json o=Json::object(); o["op"]="evolve_fail"; o["at"]=(int)r.below(4); o["adaptive"]=r.chance(0.6); o["vs"]=(long long)r.below(100000); ops.push(o); }
